@@ -88,6 +88,8 @@ impl<T, E> Observer<T, E> for ObservableFutureObserver<T, E> {
 
   fn error(mut self, err: E) {
     send_observable_value(&mut self, Err(err));
+    // the stream is over: resolve the future now
+    self.complete();
   }
 
   fn complete(mut self) {
